@@ -565,6 +565,16 @@ fn explore(ctx: &Ctx) -> Outcome {
         })
         .reduce(Tally::new, Tally::merge);
     let mut total = total;
+    // state carried between calls: a series of failing parses right before each case
+    for idx in vcore::util::odometer(6, 3) {
+        let c = Case { fam: "after-failed-calls".into(), meta: (idx[0] % 4) as u8, clip: (idx[1] % 8) as u8, sets: idx.iter().map(|i| shape(*i)).collect() };
+        props::poison::failing_calls();
+        let before = total.violations.len();
+        run_case(&c, &mut total);
+        for v in total.violations.iter_mut().skip(before) {
+            v.sig = format!("after-failed-calls:{}", v.sig);
+        }
+    }
     for (name, v) in scale_values() {
         total.cases += 1;
         total.nontrivial += 1;
@@ -631,8 +641,12 @@ fn replay(_ctx: &Ctx, case: &Value) -> Vec<Violation> {
         Err(_) => return vec![],
     };
     let mut t = Tally::new();
+    let poisoned = c.fam == "after-failed-calls";
+    if poisoned {
+        props::poison::failing_calls();
+    }
     match judge(&realise(&c), &mut t) {
-        Some((sig, summary)) => vec![Violation { sig, summary, case: case.clone() }],
+        Some((sig, summary)) => vec![Violation { sig: if poisoned { format!("after-failed-calls:{}", sig) } else { sig }, summary, case: case.clone() }],
         None => vec![],
     }
 }
